@@ -50,6 +50,20 @@ VarintDecode(bytes) ==
                                            \o BitsOf(bytes[9], 8))]
         ELSE [n |-> -1, bits |-> <<>>]
 
+\* encoder (used to check Decode o Encode = identity for every length 1..9)
+PadLeft(bits, n) == [i \in 1..(n - Len(bits)) |-> 0] \o bits
+
+VarintEncode(bits) ==
+    IF Len(bits) <= 56
+      THEN LET k == IF Len(bits) = 0 THEN 1 ELSE (Len(bits) + 6) \div 7
+               p == PadLeft(bits, 7 * k)
+           IN  [i \in 1..k |-> BitsToNat(SubSeq(p, 7 * (i - 1) + 1, 7 * i)) + (IF i < k THEN 128 ELSE 0)]
+      ELSE LET p == PadLeft(bits, 64)
+           IN  [i \in 1..9 |-> IF i <= 8 THEN BitsToNat(SubSeq(p, 7 * (i - 1) + 1, 7 * i)) + 128
+                                          ELSE BitsToNat(SubSeq(p, 57, 64))]
+
+VarintLen(bits) == IF Len(bits) = 0 THEN 1 ELSE IF Len(bits) > 56 THEN 9 ELSE (Len(bits) + 6) \div 7
+
 \* a varint whose value is known to be small, as a TLC integer; -1 when unusable
 VarintSmall(bytes) ==
     LET v == VarintDecode(bytes)
